@@ -6,7 +6,7 @@ pub fn run(args: &[String]) {
     let src = args.get(1).cloned().unwrap_or_default();
     let path = args.get(2).cloned().unwrap_or_else(|| "p".to_string());
     let mut g = TmplGroup::new();
-    let diags = g.add_tmpl(&path, &src);
+    let diags = { crate::util::note_input(&*src); g.add_tmpl(&path, &src) };
     for d in &diags {
         println!("DIAG {:?} level={} {}:{}-{}:{}", d.kind, d.kind.level() as u8, d.location.start.line, d.location.start.utf16_col, d.location.end.line, d.location.end.utf16_col);
     }
